@@ -11,6 +11,9 @@ from __future__ import annotations
 from typing import List, Tuple
 
 
+_SIG_COUNTER = 0
+
+
 class BadSignatureError(Exception):
     pass
 
@@ -27,8 +30,13 @@ class Registry:
         self.verify_log: List[Tuple[bytes, bytes, bytes]] = []
 
     def new_sig_token(self) -> bytes:
-        self.counter += 1
-        return bytes([0x51]) + self.counter.to_bytes(2, "big") + bytes([0x6D]) * 61
+        # process-wide counter: a signature value is never handed out twice, also not across the paths of one
+        # symbolic run (a validator that keeps state between calls must not see an old signature value re-appear
+        # for a different message merely because the harness restarted its numbering)
+        global _SIG_COUNTER
+        _SIG_COUNTER += 1
+        self.counter = _SIG_COUNTER
+        return bytes([0x51]) + _SIG_COUNTER.to_bytes(4, "big") + bytes([0x6D]) * 59
 
     def sign(self, pub: bytes, msg: bytes) -> bytes:
         sig = self.new_sig_token()
